@@ -3,7 +3,8 @@
 (* harness/c17_poll.cpp (or a linear execution written as a chain).                                   *)
 (* node line: {"id":n,"p":[public priorities],"st":{g,now,vec,prio,used,ord,lp},"succ":[[k,m,a,out,to],..]} *)
 (*   k: 1 next (out = selected message, 0 none) 2 setprio(m,a) 3 addback(m) 4 addfront(m) 5 conduse(m) *)
-(*      6 readd(m) 7 tick(a)                                                                          *)
+(*      6 readd(m) 7 tick(a) 8 otherclear (a second MessageMap instance cleared/reloaded/destroyed)   *)
+(*      9 reload (clear + all definitions again)                                                      *)
 (* mode "monitor" (default): the P monitor of Poll.tla runs in lock-step with G.                       *)
 (* mode "fidelity": every edge is compared with the concrete step function of S (normal forms).       *)
 EXTENDS Poll, Json, IOUtils
@@ -12,10 +13,10 @@ G == ndJsonDeserialize(IOEnv.VF_GRAPH)
 Mode == IF "VF_MODE" \in DOMAIN IOEnv THEN IOEnv.VF_MODE ELSE "monitor"
 Target == IF "VF_TARGET" \in DOMAIN IOEnv THEN IOEnv.VF_TARGET ELSE ""
 (* kinds of edges that may be followed (sub-alphabet), as a string of digits, e.g. "17" = next + tick *)
-Mask == IF "VF_MASK" \in DOMAIN IOEnv THEN IOEnv.VF_MASK ELSE "1234567"
-KindName == <<"next", "setprio", "addback", "addfront", "conduse", "readd", "tick">>
-Digits == <<"1", "2", "3", "4", "5", "6", "7">>
-Allowed == {k \in 1..7 : \E i \in 1..Len(Mask) : SubSeq(Mask, i, i) = Digits[k]}
+Mask == IF "VF_MASK" \in DOMAIN IOEnv THEN IOEnv.VF_MASK ELSE "123456789"
+KindName == <<"next", "setprio", "addback", "addfront", "conduse", "readd", "tick", "otherclear", "reload">>
+Digits == <<"1", "2", "3", "4", "5", "6", "7", "8", "9">>
+Allowed == {k \in 1..9 : \E i \in 1..Len(Mask) : SubSeq(Mask, i, i) = Digits[k]}
 
 InitPrios == IF "VF_INITPRIOS" \in DOMAIN IOEnv THEN LET t == IOEnv.VF_INITPRIOS IN [i \in 1..Len(t) |-> atoi(SubSeq(t, i, i))] ELSE <<>>
 K == IF "VF_K" \in DOMAIN IOEnv THEN atoi(IOEnv.VF_K) ELSE 2
@@ -36,7 +37,8 @@ NG == Len(G[1].p)
 StepMonFull(m0, n, e) ==
   LET k == e[1] prio2 == G[e[5]].p IN
   IF k = 1 THEN (IF e[4] = 0 THEN m0 ELSE MonSelect(m0, e[4], prio2, K))
-  ELSE IF k = 7 THEN m0
+  ELSE IF k = 7 \/ k = 8 THEN m0          \* time passing / another map: no event of this map
+  ELSE IF k = 9 THEN MonReload(m0, prio2)
   ELSE IF k = 2 /\ e[3] = G[n].p[e[2]] THEN m0
   ELSE MonPerturb(m0, KindName[k], e[2], prio2, K)
 StepMon(m0, n, e) ==
@@ -77,6 +79,8 @@ StepS(s, e) ==
     [] e[1] = 5 -> [s |-> CondUseF(s, e[2]), out |-> 0]
     [] e[1] = 6 -> [s |-> ReAddF(s, e[2], InitPrios[e[2]], ReAddPinned), out |-> 0]
     [] e[1] = 7 -> [s |-> TickF(s, e[3]), out |-> 0]
+    [] e[1] = 8 -> [s |-> OtherClearF(s), out |-> 0]
+    [] e[1] = 9 -> [s |-> ReloadF(s, InitPrios, ReAddPinned), out |-> 0]
 EdgeConforms(n, e) == LET r == StepS(ToS(G[n].st), e) IN
                       r.out = e[4] /\ Norm(r.s, CapBase) = Norm(ToS(G[e[5]].st), CapBase)
 NodeConforms(n) == \A j \in 1..Len(G[n].succ) : EdgeConforms(n, G[n].succ[j])
